@@ -52,19 +52,13 @@ func (c *chunkReader) Read(p []byte) (int, error) {
 	return n, nil
 }
 
+var plainSeq int
+
 func plainProcess(in io.Reader) (string, error, string) {
-	var buf bytes.Buffer
-	var err error
-	var panicked string
-	func() {
-		defer func() {
-			if e := recover(); e != nil {
-				panicked = fmt.Sprint(e)
-			}
-		}()
-		err = processFn(in, &buf, renderCfg{pf: styleBase, level: stack.AnyPointer}, false)
-	}()
-	return buf.String(), err, panicked
+	// readers are not comparable by content: every call is its own watchdog key
+	plainSeq++
+	r := watchedProcess(fmt.Sprintf("plain#%d", plainSeq), in, renderCfg{pf: styleBase, level: stack.AnyPointer}, false)
+	return r.out, r.err, r.panicked
 }
 
 func linesBytes(lines []rline.Line, idx []int) []byte {
@@ -186,7 +180,7 @@ func TestVerifC02CLI(t *testing.T) {
 		}
 		// a subset through the real binary
 		if pp != "" && seq%61 == 0 {
-			cmd := exec.Command(pp, "-no-color", "-rebase=false", "-parse=false")
+			cmd := ppCommand(pp, "-no-color", "-rebase=false", "-parse=false")
 			cmd.Stdin = bytes.NewReader(input)
 			var so, se bytes.Buffer
 			cmd.Stdout, cmd.Stderr = &so, &se
@@ -239,7 +233,7 @@ func TestVerifC03CLI(t *testing.T) {
 		}
 		r.Record(key, changed, o+kind)
 		if pp != "" && n%29 == 0 {
-			cmd := exec.Command(pp, "-no-color")
+			cmd := ppCommand(pp, "-no-color")
 			cmd.Stdin = bytes.NewReader(input)
 			var so, se bytes.Buffer
 			cmd.Stdout, cmd.Stderr = &so, &se
